@@ -574,6 +574,42 @@ def nat_endtime(params, model):
                       f"want {want}"}
 
 
+# ---------------------------------------------------------------------------- sort_by_time: width of the sort key
+def sym_sort_wide(channels):
+    """sort_by_time over a time range beyond 2^53 ns with two records one nanosecond apart, given in descending order.
+    As for `endtime`, the symbolic run is exact by construction; the decision for this region is the native replay of
+    the path witnesses (is the combined sort key still computed exactly?)."""
+    import strax
+
+    dt = DT_CH if channels else DT_NOCH
+    a = arrays.make(dt, 3)
+    t1 = fresh_int("at1", 2**53, 2**61)
+    assume(t1 % 4 == 0)
+    tt = [t1 + 1, t1, 0]
+    for i in range(3):
+        a["time"][i], a["endtime"][i], a["id"][i] = tt[i], tt[i] + 1, i
+        if channels:
+            a["channel"][i] = 0
+    out = strax.sort_by_time(a)
+    ids = [int(x) for x in out["id"]]
+    prove(ids == [2, 1, 0], f"sort_wide:not ordered by time: {ids}")
+    return ids
+
+
+def nat_sort_wide(params, model):
+    import strax
+
+    channels = params["channels"]
+    a = np.zeros(3, dtype=DT_CH if channels else DT_NOCH)
+    t1 = model["at1"]
+    a["time"] = [t1 + 1, t1, 0]
+    a["endtime"] = a["time"] + 1
+    a["id"] = [0, 1, 2]
+    got = [int(x) for x in strax.sort_by_time(a)["id"]]
+    return {"ok": got == [2, 1, 0], "label": "sort_wide:records one ns apart are not ordered by time",
+            "detail": f"times {a['time'].tolist()} -> order of ids {got}, want [2, 1, 0]"}
+
+
 OBLIGATIONS = [
     Ob("contain", sym_contain, _g_contain, nat_contain, setup=_setup,
        doc="fully_contained_in == first container with c.t<=t and e<=c.e, else -1"),
@@ -600,6 +636,8 @@ OBLIGATIONS = [
     Ob("sort", sym_sort, lambda tier: [dict(n=n, channels=c) for n in range(0, 4 if tier == "quick" else 5)
                                        for c in (False, True)],
        nat_sort, setup=_setup, doc="sort_by_time: permutation, ordered by (time, channel), stable"),
+    Ob("sort_wide", sym_sort_wide, lambda tier: [dict(channels=False), dict(channels=True)], nat_sort_wide, setup=_setup,
+       witnesses=2, doc="sort_by_time with a time range > 2^53 ns and records 1 ns apart, decided natively"),
     Ob("endtime", sym_endtime, lambda tier: [dict(region="narrow"), dict(region="wide")], nat_endtime, setup=_setup,
        witnesses=2, doc="endtime == time + length*dt, decided natively per region (product below / above 2^31)"),
     Ob("twin_contain", sym_twin_contain, lambda tier: [dict(nt=2, nc=2)], None, setup=_setup, expect_cex=True),
@@ -607,6 +645,8 @@ OBLIGATIONS = [
 
 
 MUTANTS = [
+    dict(name="original F-C17b: float sort key for data without a channel field", file="strax/processing/general.py", only="sort_wide",
+         old="        channel = np.ones(len(x), dtype=np.int64)", new="        channel = np.ones(len(x))"),
     dict(name="original F-C17: endtime multiplies length by dt in int32", file="strax/processing/general.py", only="endtime",
          old='        return x["time"] + x["length"].astype(np.int64) * x["dt"]\n\n\n# Jitting',
          new='        return x["time"] + x["length"] * x["dt"]\n\n\n# Jitting'),
